@@ -122,6 +122,24 @@ class _Universal(ast.NodeTransformer):
                 len(node.args) == 2 and isinstance(
                     node.args[0], ast.Constant) and node.args[0].value == 0:
             node.args = [node.args[1]]
+        # range(n - 1, -1, -1)  ->  reversed(range(n))
+        if isinstance(f, ast.Name) and f.id == 'range' and \
+                len(node.args) == 3 and not node.keywords:
+            a0, a1, a2 = node.args
+
+            def m1(x):
+                return (isinstance(x, ast.UnaryOp) and isinstance(
+                    x.op, ast.USub) and isinstance(x.operand, ast.Constant)
+                    and x.operand.value == 1) or (isinstance(
+                        x, ast.Constant) and x.value == -1)
+            if m1(a1) and m1(a2) and isinstance(a0, ast.BinOp) and \
+                    isinstance(a0.op, ast.Sub) and isinstance(
+                        a0.right, ast.Constant) and a0.right.value == 1:
+                inner = ast.Call(func=ast.Name(id='range', ctx=ast.Load()),
+                                 args=[a0.left], keywords=[])
+                new = ast.Call(func=ast.Name(id='reversed', ctx=ast.Load()),
+                               args=[inner], keywords=[])
+                return ast.copy_location(new, node)
         return node
 
 
